@@ -110,9 +110,13 @@ func New(p Profile) *Kit {
 	ar.RegisterFunction(k.bestHeight, k.bestHash, k.blockByHeight, k.TxReference)
 	ar.State.RegisterFuncitons(&dstate.StateFuncsConfig{GetHeight: k.bestHeight})
 	k.Committee.RegisterFuncitons(&crstate.CommitteeFuncsConfig{
-		GetTxReference:     k.TxReference,
-		GetHeight:          k.bestHeight,
-		GetCurrentArbiters: ar.GetCurrentArbitratorKeys,
+		GetTxReference:                   k.TxReference,
+		GetHeight:                        k.bestHeight,
+		GetCurrentArbiters:               ar.GetCurrentArbitratorKeys,
+		CreateCRAppropriationTransaction: k.createAppropriation,
+		GetUTXO: func(programHash *common.Uint168) ([]*common2.UTXO, error) {
+			return (&fakeFFLDB{k: k}).GetUTXO(programHash)
+		},
 	})
 	k.setChainHeight(0)
 	return k
